@@ -23,7 +23,7 @@ RULE_TEXT = "obligation = one (entry, rule) for path rules; one guarded site / d
 
 def r1(chk, ctx):
     p = ctx.protocol()
-    proto_findings(chk, p, {"C03.R1", "C03.R1b", "C03.R2", "C18.R4"})
+    proto_findings(chk, p, {"C03.R1", "C03.R2", "C18.R4"})
     chk.floor("C04.R1", len(p.entries), 16, "analysed handler entries")
     c03.r3(chk, ctx)
     c03.r3b(chk, ctx)
